@@ -154,6 +154,12 @@ func serverCorpus(thorough bool) []item {
 	raw("bad-cl", "POST /t HTTP/1.1\r\nHost: h\r\nContent-Length: 1x\r\n\r\nabc")
 	raw("garbage-after", "GET /g HTTP/1.1\r\nHost: h\r\nX-Id: g\r\n\r\n\x00\x01garbage")
 	raw("trailer-fold", "POST /tf HTTP/1.1\r\nHost: h\r\nTransfer-Encoding: chunked\r\n\r\n1\r\na\r\n0\r\nX-T: a\r\n b\r\n\r\nGET /after HTTP/1.1\r\nHost: h\r\n\r\n")
+	raw("trailer-fold-announced", "POST /tfa HTTP/1.1\r\nHost: h\r\nTrailer: X-T\r\nTransfer-Encoding: chunked\r\n\r\n1\r\na\r\n0\r\nX-T: a\r\n b\r\n\r\nGET /after HTTP/1.1\r\nHost: h\r\n\r\n")
+	raw("trailer-dup-announced", "POST /tda HTTP/1.1\r\nHost: h\r\nTrailer: X-A, X-A\r\nTransfer-Encoding: chunked\r\n\r\n1\r\na\r\n0\r\nX-A: 1\r\nX-A: 2\r\n\r\nGET /after HTTP/1.1\r\nHost: h\r\n\r\n")
+	raw("trailer-two-announced", "POST /tta HTTP/1.1\r\nHost: h\r\nTrailer: X-A, X-B\r\nTransfer-Encoding: chunked\r\n\r\n1\r\na\r\n0\r\nX-B: 2\r\nX-A: 1\r\n\r\nGET /after HTTP/1.1\r\nHost: h\r\n\r\n")
+	raw("noread-chunked+get", "POST /noread/ch HTTP/1.1\r\nHost: h\r\nTransfer-Encoding: chunked\r\n\r\n5\r\nhello\r\n3\r\nabc\r\n0\r\n\r\nGET /after HTTP/1.1\r\nHost: h\r\nX-Id: after\r\n\r\n")
+	raw("noread-chunked-trailer+get", "POST /noread/cht HTTP/1.1\r\nHost: h\r\nTrailer: X-T\r\nTransfer-Encoding: chunked\r\n\r\n5\r\nhello\r\n0\r\nX-T: v\r\n\r\nGET /after HTTP/1.1\r\nHost: h\r\nX-Id: after\r\n\r\n")
+	raw("noread-cl+get", "POST /noread/cl HTTP/1.1\r\nHost: h\r\nContent-Length: 7\r\n\r\nhello!!GET /after HTTP/1.1\r\nHost: h\r\nX-Id: after\r\n\r\n")
 	raw("chunk-space", "POST /cs HTTP/1.1\r\nHost: h\r\nTransfer-Encoding: chunked\r\n\r\n1  \r\na\r\n0\r\n\r\n")
 	raw("http09", "GET /nine\r\nHost: h\r\n\r\n")
 	raw("abs-uri", "GET http://example.com/p?q=1 HTTP/1.1\r\nHost: h\r\nX-Id: abs\r\n\r\n")
